@@ -76,6 +76,10 @@ def owed (s : St) : Nat :=
 
 /-! ## syntactic well-formedness of programs -/
 
+def Prog.isProcessing : Prog → Bool
+  | .processing => true
+  | _ => false
+
 def Micro.wAllowed : Micro → Bool
   | .setActive _ | .coalesce | .setErr _ | .nop | .storePF | .endSupp | .readProg
   | .writeClr | .setStaged _ | .clearRet | .beginHandoff | .startRet | .notifyM | .fatal => true
@@ -83,7 +87,7 @@ def Micro.wAllowed : Micro → Bool
   | _ => false
 
 def Micro.mAllowed : Micro → Bool
-  | .setProg p => !p.isBusy
+  | .setProg p => !p.isBusy && !p.isProcessing
   | .casQ _ | .beginSend _ | .endSupp | .writeBusy _ | .storePF | .readProg | .writeClr
   | .setActive false | .setErr _ | .nop | .setStaged _ | .startRet
   | .storeReloading false | .waitReady | .setResult | .finishFailHead | .finishSucc
@@ -101,6 +105,31 @@ def Micro.clrW : Micro → Bool
 def Micro.clrM : Micro → Bool
   | .setActive false | .finishFailHead | .finishSucc | .exitHold => true
   | _ => false
+
+/-- worker sections after which the file no longer says Processing, or the answer is the main loop's job. -/
+def Micro.ansW : Micro → Bool
+  | .setProg p => !p.isProcessing
+  | .beginHandoff | .fatal => true
+  | _ => false
+
+/-- handler sections that write the answer (or take the process down). -/
+def Micro.ansM : Micro → Bool
+  | .setProg p => !p.isProcessing
+  | .setResult | .exitHold => true
+  | _ => false
+
+def anyAnsW (l : List Micro) : Bool := l.any Micro.ansW
+def anyAnsM (l : List Micro) : Bool := l.any Micro.ansM
+@[simp] theorem anyAnsW_nil : anyAnsW [] = false := rfl
+@[simp] theorem anyAnsW_cons (x : Micro) (xs : List Micro) : anyAnsW (x :: xs) = (x.ansW || anyAnsW xs) := by
+  simp [anyAnsW]
+@[simp] theorem anyAnsW_append (a b : List Micro) : anyAnsW (a ++ b) = (anyAnsW a || anyAnsW b) := by
+  simp [anyAnsW]
+@[simp] theorem anyAnsM_nil : anyAnsM [] = false := rfl
+@[simp] theorem anyAnsM_cons (x : Micro) (xs : List Micro) : anyAnsM (x :: xs) = (x.ansM || anyAnsM xs) := by
+  simp [anyAnsM]
+@[simp] theorem anyAnsM_append (a b : List Micro) : anyAnsM (a ++ b) = (anyAnsM a || anyAnsM b) := by
+  simp [anyAnsM]
 
 def anyRd (l : List Micro) : Bool := l.any Micro.isReader
 def anyClrW (l : List Micro) : Bool := l.any Micro.clrW
@@ -131,6 +160,7 @@ def wfW : List Micro → Bool
      | .coalesce => decide (1 ≤ wsum Micro.tokW rest)
      | .storePF => anyRd rest
      | .setActive true => anyClrW rest
+     | .setProg p => !p.isProcessing || anyAnsW rest
      | _ => true)
 
 /-- main-loop programs. -/
@@ -175,6 +205,8 @@ structure Inv (s : St) : Prop where
   busy : s.progress.isBusy = true → s.pending = true ∨ anyRd s.m = true ∨
           anyRd s.w = true ∨ 0 < s.gStore + s.gEnd + s.gRead + s.gWrite
   act : s.active = true → anyClrW s.w = true ∨ anyClrM s.m = true ∨ s.reloading = true
+  proc : s.progress.isProcessing = true → anyAnsW s.w = true ∨ anyAnsM s.m = true ∨
+          (s.reloading = true ∧ anyRelM s.m = false)
 
 def Good (s : St) : Prop := s.exited = true ∨ Inv s
 
@@ -188,7 +220,8 @@ def hPathOk (p : HPath) : Bool :=
   let m := expand p.effs
   wfM m && decide (wsum Micro.relM m ≤ 1) && wsum Micro.sigTok m == 0 &&
   (if p.reloading then anyRelM m && wsum Micro.sup m == 1 && !firstRelIsStore m
-   else !anyRelM m && wsum Micro.sup m == 0)
+   else !anyRelM m && wsum Micro.sup m == 0) &&
+  (!p.reloading || anyAnsM m)
 
 theorem workerPaths_ok : workerPaths.all wPathOk = true := by decide
 
@@ -209,7 +242,7 @@ theorem num_stepW {s : St} (h : Inv s) {x : Micro} {rest : List Micro} (hw : s.w
     (hx : (afterW s x rest).exited = false) :
     tokens (afterW s x rest) = (afterW s x rest).pending.toNat ∧
     (afterW s x rest).suppress = owed (afterW s x rest) := by
-  obtain ⟨tok, sup, wfw, wfm, rel1, store, note, busy, act⟩ := h
+  obtain ⟨tok, sup, wfw, wfm, rel1, store, note, busy, act, proc⟩ := h
   rw [hw] at wfw
   simp only [tokens, owed, hw] at tok sup
   have hp := toNat_le_one s.pending
@@ -243,7 +276,7 @@ theorem num_stepM {s : St} (h : Inv s) {x : Micro} {rest : List Micro} (hm : s.m
     (hx : (afterM s x rest).exited = false) :
     tokens (afterM s x rest) = (afterM s x rest).pending.toNat ∧
     (afterM s x rest).suppress = owed (afterM s x rest) := by
-  obtain ⟨tok, sup, wfw, wfm, rel1, store, note, busy, act⟩ := h
+  obtain ⟨tok, sup, wfw, wfm, rel1, store, note, busy, act, proc⟩ := h
   rw [hm] at wfm rel1 store
   simp only [tokens, owed, hm] at tok sup
   have hp := toNat_le_one s.pending
@@ -286,9 +319,11 @@ theorem rest_stepW {s : St} (h : Inv s) {x : Micro} {rest : List Micro} (hw : s.
     (s'.reloading = true → anyRelM s'.m = false → s'.notify = true) ∧
     (s'.progress.isBusy = true → s'.pending = true ∨ anyRd s'.m = true ∨ anyRd s'.w = true ∨
         0 < s'.gStore + s'.gEnd + s'.gRead + s'.gWrite) ∧
-    (s'.active = true → anyClrW s'.w = true ∨ anyClrM s'.m = true ∨ s'.reloading = true) := by
-  obtain ⟨tok, sup, wfw, wfm, rel1, store, note, busy, act⟩ := h
-  rw [hw] at wfw busy act
+    (s'.active = true → anyClrW s'.w = true ∨ anyClrM s'.m = true ∨ s'.reloading = true) ∧
+    (s'.progress.isProcessing = true → anyAnsW s'.w = true ∨ anyAnsM s'.m = true ∨
+        (s'.reloading = true ∧ anyRelM s'.m = false)) := by
+  obtain ⟨tok, sup, wfw, wfm, rel1, store, note, busy, act, proc⟩ := h
+  rw [hw] at wfw busy act proc
   simp only [tokens, owed, hw] at tok sup
   have hfs := anyRelM_of_firstRelIsStore s.m
   have key : 1 ≤ wsum Micro.tokW (x :: rest) → s.reloading = false ∧ anyRelM s.m = false := by
@@ -303,23 +338,28 @@ theorem rest_stepW {s : St} (h : Inv s) {x : Micro} {rest : List Micro} (hw : s.
   cases x <;> simp only [wfW, Micro.wAllowed, Bool.false_and, Bool.and_false, Bool.false_eq_true] at wfw
   all_goals simp only [afterW, exec] at hx ⊢
   case fatal => simp at hx
+  case setProg p =>
+    cases p <;>
+    (simp only [Bool.and_eq_true, decide_eq_true_eq, Bool.true_and, Bool.not_eq_true', Bool.or_eq_true] at wfw
+     refine ⟨?_, ?_, ?_, ?_, ?_, ?_, ?_, ?_⟩ <;>
+     simp_all [Micro.ansW, Micro.ansM, Prog.isProcessing, wfW, Micro.wAllowed, Micro.isReader, Micro.clrW, Micro.tokW, Micro.sup, Prog.isBusy])
   case readProg =>
     by_cases hb : s.progress.isBusy = true <;>
-    (refine ⟨?_, ?_, ?_, ?_, ?_, ?_, ?_⟩ <;>
-     simp_all [wfW, Micro.wAllowed, Micro.isReader, Micro.clrW, Micro.tokW, Micro.sup, Prog.isBusy])
+    (refine ⟨?_, ?_, ?_, ?_, ?_, ?_, ?_, ?_⟩ <;>
+     simp_all [Micro.ansW, Micro.ansM, Prog.isProcessing, wfW, Micro.wAllowed, Micro.isReader, Micro.clrW, Micro.tokW, Micro.sup, Prog.isBusy])
   case setActive b =>
     cases b <;>
     (simp only [Bool.and_eq_true, decide_eq_true_eq, Bool.true_and, Bool.not_eq_true'] at wfw
-     refine ⟨?_, ?_, ?_, ?_, ?_, ?_, ?_⟩ <;>
-     simp_all [wfW, Micro.wAllowed, Micro.isReader, Micro.clrW, Micro.tokW, Micro.sup, Prog.isBusy])
+     refine ⟨?_, ?_, ?_, ?_, ?_, ?_, ?_, ?_⟩ <;>
+     simp_all [Micro.ansW, Micro.ansM, Prog.isProcessing, wfW, Micro.wAllowed, Micro.isReader, Micro.clrW, Micro.tokW, Micro.sup, Prog.isBusy])
   case beginHandoff =>
     have k := key (by simp [Micro.tokW])
-    refine ⟨?_, ?_, ?_, ?_, ?_, ?_, ?_⟩ <;>
-     simp_all [wfW, Micro.wAllowed, Micro.isReader, Micro.clrW, Micro.tokW, Micro.sup]
+    refine ⟨?_, ?_, ?_, ?_, ?_, ?_, ?_, ?_⟩ <;>
+     simp_all [Micro.ansW, Micro.ansM, Prog.isProcessing, wfW, Micro.wAllowed, Micro.isReader, Micro.clrW, Micro.tokW, Micro.sup]
   all_goals (
     simp only [Bool.and_eq_true, decide_eq_true_eq, Bool.true_and, Bool.not_eq_true'] at wfw
-    refine ⟨?_, ?_, ?_, ?_, ?_, ?_, ?_⟩ <;>
-    simp_all [wfW, Micro.wAllowed, Micro.isReader, Micro.clrW, Micro.tokW, Micro.sup, Prog.isBusy])
+    refine ⟨?_, ?_, ?_, ?_, ?_, ?_, ?_, ?_⟩ <;>
+    simp_all [Micro.ansW, Micro.ansM, Prog.isProcessing, wfW, Micro.wAllowed, Micro.isReader, Micro.clrW, Micro.tokW, Micro.sup, Prog.isBusy])
 
 theorem rest_stepM {s : St} (h : Inv s) {x : Micro} {rest : List Micro} (hm : s.m = x :: rest)
     (hx : (afterM s x rest).exited = false) :
@@ -329,9 +369,11 @@ theorem rest_stepM {s : St} (h : Inv s) {x : Micro} {rest : List Micro} (hm : s.
     (s'.reloading = true → anyRelM s'.m = false → s'.notify = true) ∧
     (s'.progress.isBusy = true → s'.pending = true ∨ anyRd s'.m = true ∨ anyRd s'.w = true ∨
         0 < s'.gStore + s'.gEnd + s'.gRead + s'.gWrite) ∧
-    (s'.active = true → anyClrW s'.w = true ∨ anyClrM s'.m = true ∨ s'.reloading = true) := by
-  obtain ⟨tok, sup, wfw, wfm, rel1, store, note, busy, act⟩ := h
-  rw [hm] at wfm busy act rel1 store note
+    (s'.active = true → anyClrW s'.w = true ∨ anyClrM s'.m = true ∨ s'.reloading = true) ∧
+    (s'.progress.isProcessing = true → anyAnsW s'.w = true ∨ anyAnsM s'.m = true ∨
+        (s'.reloading = true ∧ anyRelM s'.m = false)) := by
+  obtain ⟨tok, sup, wfw, wfm, rel1, store, note, busy, act, proc⟩ := h
+  rw [hm] at wfm busy act rel1 store note proc
   simp only [tokens, owed, hm] at tok sup
   have hp : s.pending.toNat ≤ 1 := by cases s.pending <;> simp
   have keySig : 1 ≤ wsum Micro.sigTok (x :: rest) → s.queue.length = 0 ∧ s.pending = true := by
@@ -351,49 +393,49 @@ theorem rest_stepM {s : St} (h : Inv s) {x : Micro} {rest : List Micro} (hm : s.
   case exitIdle => simp at hx
   case casQ k =>
     by_cases hpd : s.pending = true <;>
-    (refine ⟨?_, ?_, ?_, ?_, ?_, ?_, ?_⟩ <;>
-     simp_all [wfM, Micro.mAllowed, Micro.isReader, Micro.clrM, Micro.relM, Micro.isRelM, firstRelIsStore, Prog.isBusy])
+    (refine ⟨?_, ?_, ?_, ?_, ?_, ?_, ?_, ?_⟩ <;>
+     simp_all [Micro.ansW, Micro.ansM, Prog.isProcessing, wfM, Micro.mAllowed, Micro.isReader, Micro.clrM, Micro.relM, Micro.isRelM, firstRelIsStore, Prog.isBusy])
   case beginSend k =>
     have k1 := keySig (by simp [Micro.sigTok])
     have hq : s.queue.length < 1 := by omega
     simp only [hq, if_true]
-    (refine ⟨?_, ?_, ?_, ?_, ?_, ?_, ?_⟩ <;>
-     simp_all [wfM, Micro.mAllowed, Micro.isReader, Micro.clrM, Micro.relM, Micro.isRelM, firstRelIsStore, Prog.isBusy, busyOf] <;>
+    (refine ⟨?_, ?_, ?_, ?_, ?_, ?_, ?_, ?_⟩ <;>
+     simp_all [Micro.ansW, Micro.ansM, Prog.isProcessing, wfM, Micro.mAllowed, Micro.isReader, Micro.clrM, Micro.relM, Micro.isRelM, firstRelIsStore, Prog.isBusy, busyOf] <;>
      first | omega | (intros; right; right; right; omega))
   case writeBusy b =>
-    by_cases hpd : s.pending = true <;> cases b <;> (refine ⟨?_, ?_, ?_, ?_, ?_, ?_, ?_⟩ <;>
-     simp_all [wfM, Micro.mAllowed, Micro.isReader, Micro.clrM, Micro.relM, Micro.isRelM, firstRelIsStore, Prog.isBusy, busyOf] <;>
+    by_cases hpd : s.pending = true <;> cases b <;> (refine ⟨?_, ?_, ?_, ?_, ?_, ?_, ?_, ?_⟩ <;>
+     simp_all [Micro.ansW, Micro.ansM, Prog.isProcessing, wfM, Micro.mAllowed, Micro.isReader, Micro.clrM, Micro.relM, Micro.isRelM, firstRelIsStore, Prog.isBusy, busyOf] <;>
      first | omega | (intros; right; right; right; omega))
   case readProg =>
-    by_cases hb : s.progress.isBusy = true <;> (refine ⟨?_, ?_, ?_, ?_, ?_, ?_, ?_⟩ <;>
-     simp_all [wfM, Micro.mAllowed, Micro.isReader, Micro.clrM, Micro.relM, Micro.isRelM, firstRelIsStore, Prog.isBusy, busyOf] <;>
+    by_cases hb : s.progress.isBusy = true <;> (refine ⟨?_, ?_, ?_, ?_, ?_, ?_, ?_, ?_⟩ <;>
+     simp_all [Micro.ansW, Micro.ansM, Prog.isProcessing, wfM, Micro.mAllowed, Micro.isReader, Micro.clrM, Micro.relM, Micro.isRelM, firstRelIsStore, Prog.isBusy, busyOf] <;>
      first | omega | (intros; right; right; right; omega))
-  case setActive b => cases b <;> (refine ⟨?_, ?_, ?_, ?_, ?_, ?_, ?_⟩ <;>
-     simp_all [wfM, Micro.mAllowed, Micro.isReader, Micro.clrM, Micro.relM, Micro.isRelM, firstRelIsStore, Prog.isBusy, busyOf] <;>
+  case setActive b => cases b <;> (refine ⟨?_, ?_, ?_, ?_, ?_, ?_, ?_, ?_⟩ <;>
+     simp_all [Micro.ansW, Micro.ansM, Prog.isProcessing, wfM, Micro.mAllowed, Micro.isReader, Micro.clrM, Micro.relM, Micro.isRelM, firstRelIsStore, Prog.isBusy, busyOf] <;>
      first | omega | (intros; right; right; right; omega))
-  case storeReloading b => cases b <;> (refine ⟨?_, ?_, ?_, ?_, ?_, ?_, ?_⟩ <;>
-     simp_all [wfM, Micro.mAllowed, Micro.isReader, Micro.clrM, Micro.relM, Micro.isRelM, firstRelIsStore, Prog.isBusy, busyOf] <;>
+  case storeReloading b => cases b <;> (refine ⟨?_, ?_, ?_, ?_, ?_, ?_, ?_, ?_⟩ <;>
+     simp_all [Micro.ansW, Micro.ansM, Prog.isProcessing, wfM, Micro.mAllowed, Micro.isReader, Micro.clrM, Micro.relM, Micro.isRelM, firstRelIsStore, Prog.isBusy, busyOf] <;>
      first | omega | (intros; right; right; right; omega))
   case storePF =>
     have k1 := keyRel (by simp [Micro.isRelM])
-    (refine ⟨?_, ?_, ?_, ?_, ?_, ?_, ?_⟩ <;>
-     simp_all [wfM, Micro.mAllowed, Micro.isReader, Micro.clrM, Micro.relM, Micro.isRelM, firstRelIsStore, Prog.isBusy, busyOf] <;>
+    (refine ⟨?_, ?_, ?_, ?_, ?_, ?_, ?_, ?_⟩ <;>
+     simp_all [Micro.ansW, Micro.ansM, Prog.isProcessing, wfM, Micro.mAllowed, Micro.isReader, Micro.clrM, Micro.relM, Micro.isRelM, firstRelIsStore, Prog.isBusy, busyOf] <;>
      first | omega | (intros; right; right; right; omega))
   case finishFailHead =>
     have k1 := keyRel (by simp [Micro.isRelM])
-    (refine ⟨?_, ?_, ?_, ?_, ?_, ?_, ?_⟩ <;>
-     simp_all [wfM, Micro.mAllowed, Micro.isReader, Micro.clrM, Micro.relM, Micro.isRelM, firstRelIsStore, Prog.isBusy, busyOf] <;>
+    (refine ⟨?_, ?_, ?_, ?_, ?_, ?_, ?_, ?_⟩ <;>
+     simp_all [Micro.ansW, Micro.ansM, Prog.isProcessing, wfM, Micro.mAllowed, Micro.isReader, Micro.clrM, Micro.relM, Micro.isRelM, firstRelIsStore, Prog.isBusy, busyOf] <;>
      first | omega | (intros; right; right; right; omega))
   case finishSucc =>
     have k1 := keyRel (by simp [Micro.isRelM])
-    rcases hrd : s.retDone with _ | _ | _ <;> (refine ⟨?_, ?_, ?_, ?_, ?_, ?_, ?_⟩ <;>
-     simp_all [wfM, Micro.mAllowed, Micro.isReader, Micro.clrM, Micro.relM, Micro.isRelM, firstRelIsStore, Prog.isBusy, busyOf] <;>
+    rcases hrd : s.retDone with _ | _ | _ <;> (refine ⟨?_, ?_, ?_, ?_, ?_, ?_, ?_, ?_⟩ <;>
+     simp_all [Micro.ansW, Micro.ansM, Prog.isProcessing, wfM, Micro.mAllowed, Micro.isReader, Micro.clrM, Micro.relM, Micro.isRelM, firstRelIsStore, Prog.isBusy, busyOf] <;>
      first | omega | (intros; right; right; right; omega))
-  case setResult => cases s.reloadErr <;> (refine ⟨?_, ?_, ?_, ?_, ?_, ?_, ?_⟩ <;>
-     simp_all [wfM, Micro.mAllowed, Micro.isReader, Micro.clrM, Micro.relM, Micro.isRelM, firstRelIsStore, Prog.isBusy, busyOf] <;>
+  case setResult => cases s.reloadErr <;> (refine ⟨?_, ?_, ?_, ?_, ?_, ?_, ?_, ?_⟩ <;>
+     simp_all [Micro.ansW, Micro.ansM, Prog.isProcessing, wfM, Micro.mAllowed, Micro.isReader, Micro.clrM, Micro.relM, Micro.isRelM, firstRelIsStore, Prog.isBusy, busyOf] <;>
      first | omega | (intros; right; right; right; omega))
-  all_goals (refine ⟨?_, ?_, ?_, ?_, ?_, ?_, ?_⟩ <;>
-     simp_all [wfM, Micro.mAllowed, Micro.isReader, Micro.clrM, Micro.relM, Micro.isRelM, firstRelIsStore, Prog.isBusy, busyOf] <;>
+  all_goals (refine ⟨?_, ?_, ?_, ?_, ?_, ?_, ?_, ?_⟩ <;>
+     simp_all [Micro.ansW, Micro.ansM, Prog.isProcessing, wfM, Micro.mAllowed, Micro.isReader, Micro.clrM, Micro.relM, Micro.isRelM, firstRelIsStore, Prog.isBusy, busyOf] <;>
      first | omega | (intros; right; right; right; omega))
 
 theorem inv_stepW {s : St} (h : Inv s) {x : Micro} {rest : List Micro} (hw : s.w = x :: rest) :
@@ -401,8 +443,8 @@ theorem inv_stepW {s : St} (h : Inv s) {x : Micro} {rest : List Micro} (hw : s.w
   cases hx : (afterW s x rest).exited
   · right
     obtain ⟨h1, h2⟩ := num_stepW h hw hx
-    obtain ⟨h3, h4, h5, h6, h7, h8, h9⟩ := rest_stepW h hw hx
-    exact ⟨h1, h2, h3, h4, h5, h6, h7, h8, h9⟩
+    obtain ⟨h3, h4, h5, h6, h7, h8, h9, h10⟩ := rest_stepW h hw hx
+    exact ⟨h1, h2, h3, h4, h5, h6, h7, h8, h9, h10⟩
   · left; exact hx
 
 theorem inv_stepM {s : St} (h : Inv s) {x : Micro} {rest : List Micro} (hm : s.m = x :: rest) :
@@ -410,8 +452,8 @@ theorem inv_stepM {s : St} (h : Inv s) {x : Micro} {rest : List Micro} (hm : s.m
   cases hx : (afterM s x rest).exited
   · right
     obtain ⟨h1, h2⟩ := num_stepM h hm hx
-    obtain ⟨h3, h4, h5, h6, h7, h8, h9⟩ := rest_stepM h hm hx
-    exact ⟨h1, h2, h3, h4, h5, h6, h7, h8, h9⟩
+    obtain ⟨h3, h4, h5, h6, h7, h8, h9, h10⟩ := rest_stepM h hm hx
+    exact ⟨h1, h2, h3, h4, h5, h6, h7, h8, h9, h10⟩
   · left; exact hx
 
 theorem hPath_of_get {i : Nat} {p : HPath} (h : handlerPaths[i]? = some p) : hPathOk p = true :=
@@ -450,7 +492,7 @@ theorem good_step {s s' : St} (h : Good s) (a : Act) (hs : step s a = some s') :
     · rename_i x rest hw
       simp only [Option.some.injEq] at hs
       rw [← hs]; exact inv_stepW hI hw
-  all_goals obtain ⟨tok, sup, wfw, wfm, rel1, store, note, busy, act⟩ := hI
+  all_goals obtain ⟨tok, sup, wfw, wfm, rel1, store, note, busy, act, proc⟩ := hI
   all_goals simp only [tokens, owed] at tok sup
   case sig k =>
     split at hs
@@ -459,8 +501,8 @@ theorem good_step {s s' : St} (h : Good s) (a : Act) (hs : step s a = some s') :
       simp only [Option.some.injEq] at hs
       subst hs
       right
-      refine ⟨?_, ?_, ?_, ?_, ?_, ?_, ?_, ?_, ?_⟩ <;>
-        simp_all [tokens, owed, wfM, Micro.mAllowed, Micro.relM, Micro.isRelM, Micro.sigTok, Micro.sup, firstRelIsStore,
+      refine ⟨?_, ?_, ?_, ?_, ?_, ?_, ?_, ?_, ?_, ?_⟩ <;>
+        simp_all [Micro.ansW, Micro.ansM, Prog.isProcessing, tokens, owed, wfM, Micro.mAllowed, Micro.relM, Micro.isRelM, Micro.sigTok, Micro.sup, firstRelIsStore,
           Micro.isReader, Micro.clrM]
     · cases hs
   case swallow k =>
@@ -474,7 +516,7 @@ theorem good_step {s s' : St} (h : Good s) (a : Act) (hs : step s a = some s') :
         cases hpd : s.pending
         · simp only [hm, anyRelM_cons, h1, Bool.or_true, hpd, Bool.toNat_true, Bool.toNat_false] at tok; omega
         · rfl
-      refine ⟨?_, ?_, ?_, ?_, ?_, ?_, ?_, ?_, ?_⟩ <;> simp_all [tokens, owed]
+      refine ⟨?_, ?_, ?_, ?_, ?_, ?_, ?_, ?_, ?_, ?_⟩ <;> simp_all [Micro.ansW, Micro.ansM, Prog.isProcessing, tokens, owed]
     · cases hs
   case term =>
     split at hs
@@ -483,59 +525,59 @@ theorem good_step {s s' : St} (h : Good s) (a : Act) (hs : step s a = some s') :
   case cliSend =>
     split at hs
     · simp only [Option.some.injEq] at hs; subst hs; right
-      refine ⟨?_, ?_, ?_, ?_, ?_, ?_, ?_, ?_, ?_⟩ <;> simp_all [tokens, owed, wfM, wfW, Micro.mAllowed, Micro.relM, Micro.isRelM, Micro.sigTok, Micro.sup, Micro.tokW, firstRelIsStore,
+      refine ⟨?_, ?_, ?_, ?_, ?_, ?_, ?_, ?_, ?_, ?_⟩ <;> simp_all [Micro.ansW, Micro.ansM, Prog.isProcessing, tokens, owed, wfM, wfW, Micro.mAllowed, Micro.relM, Micro.isRelM, Micro.sigTok, Micro.sup, Micro.tokW, firstRelIsStore,
           Micro.isReader, Micro.clrM, exec, Prog.isBusy, Prog.cliAccepts]
     · cases hs
   case closeMgr =>
     split at hs
     · simp only [Option.some.injEq] at hs; subst hs; right
-      refine ⟨?_, ?_, ?_, ?_, ?_, ?_, ?_, ?_, ?_⟩ <;> simp_all [tokens, owed, wfM, wfW, Micro.mAllowed, Micro.relM, Micro.isRelM, Micro.sigTok, Micro.sup, Micro.tokW, firstRelIsStore,
+      refine ⟨?_, ?_, ?_, ?_, ?_, ?_, ?_, ?_, ?_, ?_⟩ <;> simp_all [Micro.ansW, Micro.ansM, Prog.isProcessing, tokens, owed, wfM, wfW, Micro.mAllowed, Micro.relM, Micro.isRelM, Micro.sigTok, Micro.sup, Micro.tokW, firstRelIsStore,
           Micro.isReader, Micro.clrM, exec, Prog.isBusy, Prog.cliAccepts]
     · cases hs
   case closeG =>
     split at hs
     · simp only [Option.some.injEq] at hs; subst hs; right
-      refine ⟨?_, ?_, ?_, ?_, ?_, ?_, ?_, ?_, ?_⟩ <;> simp_all [tokens, owed, wfM, wfW, Micro.mAllowed, Micro.relM, Micro.isRelM, Micro.sigTok, Micro.sup, Micro.tokW, firstRelIsStore,
+      refine ⟨?_, ?_, ?_, ?_, ?_, ?_, ?_, ?_, ?_, ?_⟩ <;> simp_all [Micro.ansW, Micro.ansM, Prog.isProcessing, tokens, owed, wfM, wfW, Micro.mAllowed, Micro.relM, Micro.isRelM, Micro.sigTok, Micro.sup, Micro.tokW, firstRelIsStore,
           Micro.isReader, Micro.clrM, exec, Prog.isBusy, Prog.cliAccepts] <;> omega
     · cases hs
   case gStore =>
     split at hs
     · rename_i hg
       simp only [Option.some.injEq] at hs; subst hs; right
-      refine ⟨?_, ?_, ?_, ?_, ?_, ?_, ?_, ?_, ?_⟩
+      refine ⟨?_, ?_, ?_, ?_, ?_, ?_, ?_, ?_, ?_, ?_⟩
       · numtac s
       · numtac s
-      all_goals (simp_all [wfM, wfW, Micro.mAllowed, Micro.relM, Micro.isRelM, Micro.sigTok, Micro.sup, Micro.tokW, firstRelIsStore,
+      all_goals (simp_all [Micro.ansW, Micro.ansM, Prog.isProcessing, wfM, wfW, Micro.mAllowed, Micro.relM, Micro.isRelM, Micro.sigTok, Micro.sup, Micro.tokW, firstRelIsStore,
           Micro.isReader, Micro.clrM, exec, Prog.isBusy, Prog.cliAccepts] <;> first | omega | (intros; right; right; right; omega))
     · cases hs
   case gEnd =>
     split at hs
     · rename_i hg
       simp only [Option.some.injEq] at hs; subst hs; right
-      refine ⟨?_, ?_, ?_, ?_, ?_, ?_, ?_, ?_, ?_⟩
+      refine ⟨?_, ?_, ?_, ?_, ?_, ?_, ?_, ?_, ?_, ?_⟩
       · numtac s
       · numtac s
-      all_goals (simp_all [wfM, wfW, Micro.mAllowed, Micro.relM, Micro.isRelM, Micro.sigTok, Micro.sup, Micro.tokW, firstRelIsStore,
+      all_goals (simp_all [Micro.ansW, Micro.ansM, Prog.isProcessing, wfM, wfW, Micro.mAllowed, Micro.relM, Micro.isRelM, Micro.sigTok, Micro.sup, Micro.tokW, firstRelIsStore,
           Micro.isReader, Micro.clrM, exec, Prog.isBusy, Prog.cliAccepts] <;> first | omega | (intro hb; rcases busy hb with h | h | h | h <;> simp [h]; omega))
     · cases hs
   case gRead =>
     split at hs
     · rename_i hg
       simp only [Option.some.injEq] at hs; subst hs; right
-      refine ⟨?_, ?_, ?_, ?_, ?_, ?_, ?_, ?_, ?_⟩
+      refine ⟨?_, ?_, ?_, ?_, ?_, ?_, ?_, ?_, ?_, ?_⟩
       · numtac s
       · numtac s
-      all_goals (by_cases hb : s.progress.isBusy = true <;> simp_all [wfM, wfW, Micro.mAllowed, Micro.relM, Micro.isRelM, Micro.sigTok, Micro.sup, Micro.tokW, firstRelIsStore,
+      all_goals (by_cases hb : s.progress.isBusy = true <;> simp_all [Micro.ansW, Micro.ansM, Prog.isProcessing, wfM, wfW, Micro.mAllowed, Micro.relM, Micro.isRelM, Micro.sigTok, Micro.sup, Micro.tokW, firstRelIsStore,
           Micro.isReader, Micro.clrM, exec, Prog.isBusy, Prog.cliAccepts] <;> first | omega | (intros; right; right; right; omega))
     · cases hs
   case gWrite =>
     split at hs
     · rename_i hg
       simp only [Option.some.injEq] at hs; subst hs; right
-      refine ⟨?_, ?_, ?_, ?_, ?_, ?_, ?_, ?_, ?_⟩
+      refine ⟨?_, ?_, ?_, ?_, ?_, ?_, ?_, ?_, ?_, ?_⟩
       · numtac s
       · numtac s
-      all_goals (simp_all [wfM, wfW, Micro.mAllowed, Micro.relM, Micro.isRelM, Micro.sigTok, Micro.sup, Micro.tokW, firstRelIsStore,
+      all_goals (simp_all [Micro.ansW, Micro.ansM, Prog.isProcessing, wfM, wfW, Micro.mAllowed, Micro.relM, Micro.isRelM, Micro.sigTok, Micro.sup, Micro.tokW, firstRelIsStore,
           Micro.isReader, Micro.clrM, exec, Prog.isBusy, Prog.cliAccepts])
     · cases hs
   case wake i =>
@@ -551,17 +593,18 @@ theorem good_step {s s' : St} (h : Good s) (a : Act) (hs : step s a = some s') :
           simp only [Option.some.injEq] at hs; subst hs; right
           have hok := hPath_of_get hp
           simp only [hPathOk, Bool.and_eq_true, decide_eq_true_eq, beq_iff_eq] at hok
-          obtain ⟨⟨⟨h1, h2⟩, h3⟩, h4⟩ := hok
-          rw [hm] at tok sup store note busy act
+          simp only [Bool.or_eq_true, Bool.not_eq_true'] at hok
+          obtain ⟨⟨⟨⟨h1, h2⟩, h3⟩, h4⟩, h4b⟩ := hok
+          rw [hm] at tok sup store note busy act proc
           cases hrl : s.reloading <;> rw [hr', hrl] at h4 <;>
             simp only [Bool.false_eq_true, if_false, if_true, Bool.and_eq_true, Bool.not_eq_true', beq_iff_eq] at h4
           · obtain ⟨h5, h6⟩ := h4
-            refine ⟨?_, ?_, ?_, ?_, ?_, ?_, ?_, ?_, ?_⟩ <;>
-              simp_all [tokens, owed] <;>
+            refine ⟨?_, ?_, ?_, ?_, ?_, ?_, ?_, ?_, ?_, ?_⟩ <;>
+              simp_all [Micro.ansW, Micro.ansM, Prog.isProcessing, tokens, owed] <;>
               (intro hb; rcases busy hb with h | h | h <;> simp [h])
           · obtain ⟨⟨h5, h6⟩, h7⟩ := h4
-            refine ⟨?_, ?_, ?_, ?_, ?_, ?_, ?_, ?_, ?_⟩ <;>
-              simp_all [tokens, owed] <;>
+            refine ⟨?_, ?_, ?_, ?_, ?_, ?_, ?_, ?_, ?_, ?_⟩ <;>
+              simp_all [Micro.ansW, Micro.ansM, Prog.isProcessing, tokens, owed] <;>
               (intro hb; rcases busy hb with h | h | h <;> simp [h])
         · cases hs
       · cases hs
@@ -576,9 +619,9 @@ theorem good_step {s s' : St} (h : Good s) (a : Act) (hs : step s a = some s') :
         have hok := wPath_of_get hp
         simp only [wPathOk, Bool.and_eq_true, beq_iff_eq] at hok
         obtain ⟨⟨h1, h2⟩, h3⟩ := hok
-        rw [hw] at tok sup busy act
+        rw [hw] at tok sup busy act proc
         rw [hq] at tok sup
-        refine ⟨?_, ?_, ?_, ?_, ?_, ?_, ?_, ?_, ?_⟩
+        refine ⟨?_, ?_, ?_, ?_, ?_, ?_, ?_, ?_, ?_, ?_⟩
         · numtac s
         · numtac s
         all_goals (simp_all <;> (intro hb; rcases busy hb with h | h | h <;> simp [h]))
@@ -587,7 +630,7 @@ theorem good_step {s s' : St} (h : Good s) (a : Act) (hs : step s a = some s') :
 
 theorem good_init : Good init := by
   right
-  refine ⟨?_, ?_, ?_, ?_, ?_, ?_, ?_, ?_, ?_⟩ <;> simp [init, tokens, owed, wfW, wfM, firstRelIsStore, Prog.isBusy]
+  refine ⟨?_, ?_, ?_, ?_, ?_, ?_, ?_, ?_, ?_, ?_⟩ <;> simp [init, tokens, owed, wfW, wfM, firstRelIsStore, Prog.isBusy, Prog.isProcessing]
 
 theorem reachable_good {s : St} (h : Reachable s) : Good s := by
   induction h with
